@@ -18,6 +18,8 @@ import RubatoProofs.Async.FixedIn
 import RubatoProofs.Async.FixedOut
 import RubatoProofs.Async.FixedInHistory
 import RubatoProofs.Fft.Control
+import RubatoProofs.Lemmas.FormulaTie
+import RubatoProofs.Lemmas.DivBridge
 
 set_option linter.unusedSectionVars false
 set_option linter.unusedVariables false
@@ -206,5 +208,58 @@ theorem fixedIn_no_drift_process_level {kind : AKind} (hk : kind = .fastIn ∨ k
     0 ≤ d ∧ d ≤ ratio * ((s0.L : ℚ) - ((s0.L / 2 : ℕ) : ℚ) + 1 + (⌈1 / ratio⌉ : ℤ)) ∧
       d ≤ ratio * ((s0.L : ℚ) + 1 / ratio + 3) + 3 :=
   FixedInHistory.no_drift_init hk hL3 hn hn2 hmach h0 ops
+
+end Rubato.C07
+
+namespace Rubato.C07
+open Rubato Rubato.Gen
+
+/-! ### tie G7 for the synchronous types: the block sizes and frame counts of the theorems above ARE the formulas the
+translator regenerates from synchro.rs in this run, read over exact arithmetic -/
+
+/-- the `DivArith.exact` block sizes of the three FFT constructors are the regenerated `gcd` / `min_chunk` / `fft_chunks`
+/ `fft_size_in` / `fft_size_out` statements of `FftFixedInOut::new`, `FftFixedIn::new` and `FftFixedOut::new` at ρ = ℚ -/
+theorem fft_block_sizes_are_the_source_formulas (ri ro chunk sub : Nat) :
+    fftSizes DivArith.exact ri ro chunk false =
+      (let g := Formulas.fftIo_new_gcd (ρ := ℚ) ri ro
+       let k := Formulas.fftIo_new_fft_chunks (ρ := ℚ) chunk (Formulas.fftIo_new_min_chunk_in (ρ := ℚ) ri g)
+       (Formulas.fftIo_new_fft_size_in (ρ := ℚ) k ri g, Formulas.fftIo_new_fft_size_out (ρ := ℚ) k ro g)) ∧
+    fftSizes DivArith.exact ri ro (chunk / sub) false =
+      (let g := Formulas.fftIn_new_gcd (ρ := ℚ) ri ro
+       let k := Formulas.fftIn_new_fft_chunks (ρ := ℚ) (Formulas.fftIn_new_wanted_subsize (ρ := ℚ) chunk sub)
+                  (Formulas.fftIn_new_min_chunk_in (ρ := ℚ) ri g)
+       (Formulas.fftIn_new_fft_size_in (ρ := ℚ) k ri g, Formulas.fftIn_new_fft_size_out (ρ := ℚ) k ro g)) ∧
+    fftSizes DivArith.exact ri ro (chunk / sub) true =
+      (let g := Formulas.fftOut_new_gcd (ρ := ℚ) ri ro
+       let k := Formulas.fftOut_new_fft_chunks (ρ := ℚ) (Formulas.fftOut_new_wanted_subsize (ρ := ℚ) chunk sub)
+                  (Formulas.fftOut_new_min_chunk_out (ρ := ℚ) ro g)
+       (Formulas.fftOut_new_fft_size_in (ρ := ℚ) k ri g, Formulas.fftOut_new_fft_size_out (ρ := ℚ) k ro g)) := by
+  rw [← DivBridge.ofNum_rat_eq_exact]
+  exact ⟨FormulaTie.fftIo_sizes ℚ ri ro chunk, FormulaTie.fftIn_sizes ℚ ri ro chunk sub,
+         FormulaTie.fftOut_sizes ℚ ri ro chunk sub⟩
+
+/-- FftFixedOut's `frames_needed` (constructor, every call, reset) and FftFixedIn's per-call output demand, likewise -/
+theorem fft_frame_counts_are_the_source_formulas (a fo fi saved chunkIn : Nat) :
+    DivArith.exact.cdiv a fo * fi =
+        Formulas.fftOut_new_frames_needed (ρ := ℚ) (Formulas.fftOut_new_chunks_needed (ρ := ℚ) a fo) fi ∧
+    DivArith.exact.cdiv a fo * fi =
+        Formulas.fftOut_proc_frames_needed (ρ := ℚ) (Formulas.fftOut_proc_chunks_needed (ρ := ℚ) a fo) fi ∧
+    DivArith.exact.cdiv a fo * fi =
+        Formulas.fftOut_reset_frames_needed (ρ := ℚ) (Formulas.fftOut_reset_chunks_needed (ρ := ℚ) a fo) fi ∧
+    DivArith.exact.fdiv (saved + chunkIn) fi * fo =
+      Formulas.fftIn_proc_needed_len (ρ := ℚ)
+        (Formulas.fftIn_proc_nbr_chunks_ready (ρ := ℚ) (Formulas.fftIn_proc_next_saved_frames (ρ := ℚ) saved chunkIn) fi) fo := by
+  rw [← DivBridge.ofNum_rat_eq_exact]
+  exact ⟨(FormulaTie.fftOut_frames_needed ℚ a fo fi).1, (FormulaTie.fftOut_frames_needed ℚ a fo fi).2.1,
+         (FormulaTie.fftOut_frames_needed ℚ a fo fi).2.2, FormulaTie.fftIn_ready ℚ saved chunkIn fi fo⟩
+
+/-- … and each of those formulas reads the locals / fields the model feeds it -/
+theorem fft_formulas_read_the_expected_fields_C07 :
+    Formulas.fftFormulaParams.lookup "fftIo_new_fft_size_out" = some ["fft_chunks", "sample_rate_output", "gcd"] ∧
+    Formulas.fftFormulaParams.lookup "fftIo_new_fft_size_in" = some ["fft_chunks", "sample_rate_input", "gcd"] ∧
+    Formulas.fftFormulaParams.lookup "fftOut_new_min_chunk_out" = some ["sample_rate_output", "gcd"] ∧
+    Formulas.fftFormulaParams.lookup "fftIn_new_min_chunk_in" = some ["sample_rate_input", "gcd"] := by
+  rw [FormulaTie.fft_formulas_read_the_expected_fields]
+  decide
 
 end Rubato.C07
